@@ -859,17 +859,23 @@ func extractGlobals(repo, gen, facts string) {
 		}
 	}
 	appends := extractAppends(pkgOrder)
+	nodeWrites := extractNodeWrites(pkgOrder)
+	configCalls := extractConfigCalls(pkgOrder)
+	listeners := extractListenerDiscipline(pkgOrder)
 	type fact struct {
-		Globals  []globalVar  `json:"globals"`
-		Closures []closureRec `json:"closures"`
-		Appends  []appendRow  `json:"appends"`
-		Notes    []string     `json:"notes,omitempty"`
+		Globals     []globalVar          `json:"globals"`
+		Closures    []closureRec         `json:"closures"`
+		Appends     []appendRow          `json:"appends"`
+		NodeWrites  []nodeWrite          `json:"nodeWrites"`
+		ConfigCalls []configCall         `json:"configCalls"`
+		Listeners   []listenerDiscipline `json:"listeners"`
+		Notes       []string             `json:"notes,omitempty"`
 	}
-	js, _ := json.MarshalIndent(fact{all, closures, appends, notes}, "", " ")
+	js, _ := json.MarshalIndent(fact{all, closures, appends, nodeWrites, configCalls, listeners, notes}, "", " ")
 	writeIfChanged(filepath.Join(facts, "globals.json"), string(js)+"\n")
 
 	var b strings.Builder
-	b.WriteString("import StorageModel.C18.Globals\n")
+	b.WriteString("import StorageModel.C18.Globals\nimport StorageModel.C18.ParserPool\n")
 	b.WriteString("/- GENERATED by /verif/extract from the package-level vars and the escaping function literals of zitiql, ast, boltz, objectz — do not edit. -/\n")
 	b.WriteString("namespace StorageModel.Generated\nopen StorageModel.C18\n")
 	b.WriteString("def globals : List GlobalVar := [\n")
@@ -920,6 +926,27 @@ func extractGlobals(repo, gen, facts string) {
 		}
 		fmt.Fprintf(&b, "  { pkg := %q, func := %q, operand := %q, via := %q, how := .%s }", a.Pkg, a.Func, a.Operand, a.Via, a.How)
 	}
-	b.WriteString("]\nend StorageModel.Generated\n")
+	b.WriteString("]\n\n")
+	b.WriteString("def nodeWrites : List NodeWrite := [\n")
+	for i, w := range nodeWrites {
+		if i > 0 {
+			b.WriteString(",\n")
+		}
+		fmt.Fprintf(&b, "  { typ := %q, method := %q, field := %q, how := .%s, phase := .%s }", w.Type, w.Method, w.Field, w.How, w.Phase)
+	}
+	b.WriteString("]\n\n")
+	b.WriteString("def configCalls : List ConfigCall := [\n")
+	for i, c := range configCalls {
+		if i > 0 {
+			b.WriteString(",\n")
+		}
+		fmt.Fprintf(&b, "  { pkg := %q, func := %q, callee := %q, inInit := %v }", c.Pkg, c.Func, c.Callee, c.InInit)
+	}
+	b.WriteString("]\n\n")
+	for _, l := range listeners {
+		fmt.Fprintf(&b, "def %sListeners : ParserPool.Discipline :=\n  { removeBeforeAlways := %v, removeBeforePlain := %v, removeAfterDeferred := %v, addsCollector := %v }\n",
+			l.Recogniser, l.RemoveBeforeAlways, l.RemoveBeforePlain, l.RemoveAfterDeferred, l.AddsCollector)
+	}
+	b.WriteString("end StorageModel.Generated\n")
 	writeIfChanged(filepath.Join(gen, "Globals.lean"), b.String())
 }
